@@ -69,9 +69,19 @@ Section Queue.
     end.
 
   (* func (q *queue) tryEnqueueingBatch(done) bool  [under q.batchMtx]; true = retry later.
-     NOTE: a successful send leaves q.batch as it is (it is only cleared by FlushAndShutdown
-     afterwards, in a second critical section). *)
+     A successful send forgets the batch (q.batch = nil) in the same critical section
+     (fix dca118dfcb). *)
   Definition q_tryflush (nbq : nat) (q : queue) : queue * bool :=
+    match q_batch q with
+    | [] => (q, false)
+    | _ => if Nat.ltb (length (q_chan q)) nbq
+           then (mkQ [] (q_chan q ++ [q_batch q]) (q_closed q), false)
+           else (q, true)
+    end.
+
+  (* the code before fix dca118dfcb: a successful send left q.batch as it was; it was only
+     cleared by FlushAndShutdown afterwards, in a second critical section *)
+  Definition q_tryflush_old (nbq : nat) (q : queue) : queue * bool :=
     match q_batch q with
     | [] => (q, false)
     | _ => if Nat.ltb (length (q_chan q)) nbq
@@ -85,31 +95,37 @@ End Queue.
 
 Arguments mkQ {A}. Arguments q_batch {A}. Arguments q_chan {A}. Arguments q_closed {A}.
 Arguments q_new {A}. Arguments q_append {A}. Arguments q_recv {A}. Arguments q_timer {A}.
-Arguments q_tryflush {A}. Arguments q_close {A}.
+Arguments q_tryflush {A}. Arguments q_tryflush_old {A}. Arguments q_close {A}.
 Arguments RBatch {A}. Arguments RClosed {A}. Arguments RBlock {A}.
 
 (* single-goroutine scripts on one real queue (the tie of level A) *)
 Inductive qop := QAppend (x : Z) | QRecv | QTimer | QTryFlush | QShutdown.
 Inductive qobs := OBool (b : bool) | OBatch (l : list Z) | OClosed | OBlock | OUnit | OPanic.
 
-Definition q_step (bsz nbq : nat) (q : queue Z) (o : qop) : queue Z * qobs :=
+(* old = true: the queue as it was before fix dca118dfcb *)
+Definition q_step_gen (old : bool) (bsz nbq : nat) (q : queue Z) (o : qop) : queue Z * qobs :=
+  let tryflush := if old then q_tryflush_old else q_tryflush in
   match o with
   | QAppend x => let '(q', r) := q_append bsz nbq q x in
                  (q', match r with AOk => OBool true | ARetry => OBool false | APanic => OPanic end)
   | QRecv => let '(q', r) := q_recv q in
              (q', match r with RBatch b => OBatch b | RClosed => OClosed | RBlock => OBlock end)
   | QTimer => let '(q', b) := q_timer q in (q', OBatch b)
-  | QTryFlush => let '(q', b) := q_tryflush nbq q in (q', OBool b)
+  | QTryFlush => let '(q', b) := tryflush nbq q in (q', OBool b)
   | QShutdown =>   (* FlushAndShutdown when its first tryEnqueueingBatch does not ask for a retry *)
-      let '(q', b) := q_tryflush nbq q in
+      let '(q', b) := tryflush nbq q in
       if b then (q', OBlock) else (q_close q', OUnit)
   end.
 
-Fixpoint q_run (bsz nbq : nat) (q : queue Z) (ops : list qop) : list qobs :=
+Definition q_step := q_step_gen false.
+
+Fixpoint q_run_gen (old : bool) (bsz nbq : nat) (q : queue Z) (ops : list qop) : list qobs :=
   match ops with
   | [] => []
-  | o :: r => let '(q', ob) := q_step bsz nbq q o in ob :: q_run bsz nbq q' r
+  | o :: r => let '(q', ob) := q_step_gen old bsz nbq q o in ob :: q_run_gen old bsz nbq q' r
   end.
+
+Definition q_run := q_run_gen false.
 
 (* ------------------------------------------------------------------------------------------ *)
 (* Level B: the pipeline                                                                       *)
@@ -146,7 +162,7 @@ Inductive outcome := Ok | Recoverable | Unrecoverable.
 (* where the goroutine running FlushAndShutdown of a queue is *)
 Inductive fpc :=
 | FNone      (* not launched, or still retrying tryEnqueueingBatch (channel full) *)
-| FPushed    (* tryEnqueueingBatch returned false; q.batch not yet cleared *)
+| FPushed    (* tryEnqueueingBatch returned false; FlushAndShutdown has not yet closed the channel *)
 | FClosed.   (* q.batch = nil; close(q.batchQueue) done *)
 
 Record shard := mkSh {
@@ -171,7 +187,8 @@ Record st := mkSt {
   (* ghost state, for the theorems only *)
   fed : list item;                (* eligible samples accepted by Append, in WAL order *)
   lossy : bool;                   (* a batch was abandoned: unrecoverable error or hard shutdown *)
-  flushrace : bool                (* runShard's timer took q.batch between the two critical sections of FlushAndShutdown *)
+  flushrace : bool                (* runShard's timer took a q.batch that tryEnqueueingBatch had already put on the
+                                     channel (possible only before fix dca118dfcb) *)
 }.
 
 Inductive op :=
@@ -204,6 +221,7 @@ Section Pipeline.
   Variable bsz : nat.        (* MaxSamplesPerSend *)
   Variable nbq : nat.        (* channel slots = nbatches MaxSamplesPerSend Capacity *)
   Variable ext : labels.     (* external labels *)
+  Variable old_flush : bool. (* true = tryEnqueueingBatch as it was before fix dca118dfcb *)
 
   Definition set_tab (s : st) (t : stab) : st :=
     mkSt t (pend s) (shards s) (soft s) (log s) (nextid s) (n_old s) (n_dropped s) (n_unint s)
@@ -344,7 +362,7 @@ Section Pipeline.
   (* go queue.FlushAndShutdown(s.done): for q.tryEnqueueingBatch(done) { wait 1s } *)
   Definition sh_flushpush (sh : shard) : shard :=
     match sh_fl sh with
-    | FNone => let '(q', again) := q_tryflush nbq (sh_q sh) in
+    | FNone => let '(q', again) := (if old_flush then q_tryflush_old else q_tryflush) nbq (sh_q sh) in
                mkSh q' (sh_infl sh) (sh_exit sh) (if again then FNone else FPushed)
     | _ => sh
     end.
